@@ -43,7 +43,6 @@ CLAIMED = {
   "Honest level: proof for the comparison lemma, the per-layer iff and the composition rule over the layer algebra; that "
   "each Rust modifier IS the layer the model says is established by exhaustive correspondence over the finite "
   "perturbation domain on the 31-type family (the inductive universe of nestings is represented by that family)."),
-}
  "C16": (
   "60 machine-checked theorems (coq/Properties/C16.v, axiom-free): for each of the 36 bound System / SPL Token / ATA "
   "instructions the framework-side encoding (declarations re-extracted from /repo on every run by tools/gen_extra_c16.py and "
